@@ -399,13 +399,16 @@ def scan_lexicons(source: AnyPath) -> list[ScanInfo]:
     infos: list[ScanInfo] = []
 
     lex_re = re.compile(b'<(Lexicon|LexiconExtension|Extends)\\b([^>]*)>', flags=re.M)
-    attr_re = re.compile(b'''\\b(id|version|label)=["']([^"']+)["']''', flags=re.M)
+    attr_re = re.compile(
+        b'''\\b(id|version|label)=("[^"]*"|'[^']*')''', flags=re.M
+    )
 
     with open(source, 'rb') as fh:
         for m in lex_re.finditer(fh.read()):
             lextype, remainder = m.groups()
             attrs = {
-                _m.group(1).decode("utf-8"): _m.group(2).decode("utf-8")
+                _m.group(1).decode("utf-8"):
+                    _unescape_attribute(_m.group(2)[1:-1].decode("utf-8"))
                 for _m in attr_re.finditer(remainder)
             }
             info: ScanInfo = {
@@ -427,6 +430,25 @@ def scan_lexicons(source: AnyPath) -> list[ScanInfo]:
                 raise LMFError('invalid use of <Extends> in WN-LMF file')
 
     return infos
+
+
+_XML_REFERENCE = re.compile(r'&(#[0-9]+|#x[0-9a-fA-F]+|amp|lt|gt|quot|apos);')
+_XML_ENTITIES = {'amp': '&', 'lt': '<', 'gt': '>', 'quot': '"', 'apos': "'"}
+
+
+def _unescape_attribute(value: str) -> str:
+    """Return the attribute *value* as an XML parser would report it."""
+
+    def replace(m: re.Match) -> str:
+        ref = m.group(1)
+        if ref.startswith('#x'):
+            return chr(int(ref[2:], 16))
+        elif ref.startswith('#'):
+            return chr(int(ref[1:]))
+        return _XML_ENTITIES[ref]
+
+    # literal whitespace is normalized to spaces before references are resolved
+    return _XML_REFERENCE.sub(replace, re.sub(r'[\t\n\r]', ' ', value))
 
 
 _Elem = dict[str, Any]  # basic type for the loaded XML data
